@@ -299,6 +299,6 @@ func plans(tier string) []mc.Plan {
 }
 
 func init() {
-	mc.Register(&mc.Check{ID: "C07", Plans: plans, Budget: map[string]int{"quick": 150, "thorough": 1800},
+	mc.Register(&mc.Check{ID: "C07", Plans: plans, Budget: map[string]int{"quick": 240, "thorough": 1800},
 		Notes: "C07: 2-3 (thorough 4) concurrent actors (two multi-frame senders, half-close, close, context cancel, next RPC) on one client stream, and concurrent handler senders racing SendError on the server; every Transport.Write has a begin and an end scheduling point; oracle: the write log parses into whole frames with non-decreasing ids, one kind per id, nothing after a final frame, accepted by the real reader; never two writes or two reads in flight; at most one Close."})
 }
